@@ -160,8 +160,15 @@ impl BaseBandModulationParams {
             1
         };
 
+        // Ceiling division for a positive `denom` and any sign of `num`: integer
+        // division truncates toward zero, which already is the ceiling for
+        // negative non-multiples.
         const fn div_ceil(num: i32, denom: i32) -> i32 {
-            (num - 1) / denom + 1
+            if num % denom > 0 {
+                num / denom + 1
+            } else {
+                num / denom
+            }
         }
 
         let big_ratio = div_ceil(8 * len as i32 - 4 * sf + 28 + 16 - 20 * h, 4 * (sf - 2 * de));
